@@ -12,7 +12,8 @@ RULE = (
     "instruction lines of a shipped kernel with 0-2 look-alikes inserted; prologue/epilogue = 0-4 instruction lines incl. decoys (mov of another "
     "value or into another register, marker mov without .byte, .byte with other values); marker styles: bytes on "
     "one line, on separate lines, OSACA-BEGIN/OSACA-END comments, with trailing comments; leading blank lines so "
-    "that line numbers reach 5000; --lines strings over the body's line set rendered with ',', 'a-b', 'a:b'; noise "
+    "that line numbers reach 5000; --lines strings over the body's line set rendered with ',', 'a-b', 'a:b', entries in ascending, rotated "
+    "or descending order; noise "
     "(comment/label/directive/blank lines) inserted into the body. Oracle: reduce_to_section returns exactly the "
     "body records; get_line_range equals the reference expansion; the parsed-back analyses (per-instruction "
     "pressure, CP/LCD cells keyed by instruction order, summary row) are identical for the marked file, the same "
@@ -97,6 +98,7 @@ def cases(draw, isa, archs, kernels):
             ["# noise" if isa == "x86" else "// noise", ".Lnoise%d:" % draw(st.integers(0, 3)), ".p2align 4", "",
              "   "]))])
     return {"isa": isa, "arch": draw(st.sampled_from(archs)), "kernel": name, "body": body, "pro": pro, "epi": epi,
+            "order": draw(st.sampled_from([0, 0, 1, 2, 3, 5])),
             "style": style, "blank": draw(st.sampled_from([0, 0, 1, 3, 996, 1200, 4900])),
             "cuts": cuts, "seps": seps, "noise": noise, "fixed": draw(st.booleans())}
 
@@ -141,9 +143,15 @@ def check_case(case):
         a_no, b_no = body_nos[prev], body_nos[b - 1]
         pieces.append(str(a_no) if a_no == b_no else "%d%s%d" % (a_no, case["seps"][k], b_no))
         prev = b
+    # the entries name a set of lines: any order of the comma-separated entries names the same kernel
+    order = case.get("order", 0)
+    if order and len(pieces) > 1:
+        pieces = pieces[order % len(pieces):] + pieces[:order % len(pieces)]
+        if order % 2:
+            pieces.reverse()
     lines_arg = ",".join(pieces)
     rng = guard(oo.get_line_range, lines_arg, what="get_line_range")
-    if list(rng) != ref_line_range(lines_arg) or list(rng) != body_nos:
+    if sorted(rng) != sorted(ref_line_range(lines_arg)) or sorted(rng) != body_nos:
         raise Violation("line-range:" + isa, "--lines %r expands to the wrong line set" % lines_arg, list(rng), body_nos)
     # analyses of the three variants + noise
     base = ["--arch", case["arch"], "--lcd-timeout", "-1"] + (["--fixed"] if case["fixed"] else [])
@@ -185,6 +193,8 @@ def check_case(case):
         cl.append("look-alike-inside-kernel")
     if mixed:
         cl.append("lines-range+single")
+    if order and len(pieces) > 1:
+        cl.append("lines-entries-not-ascending")
     return {"nontrivial": nt, "classes": cl, "key": [code, lines_arg, case["noise"], case["arch"], case["fixed"]],
             "sample": {"arch": case["arch"], "file": [l for l in lines if l][:14], "lines_arg": lines_arg,
                        "first_body_line": first_body, "noise": case["noise"]}}
